@@ -6188,3 +6188,66 @@ def c19_listener_leaves_sasl_only_after_ok(env):
 
 
 REGISTRY.setdefault("C19", []).append(c19_listener_leaves_sasl_only_after_ok)
+
+
+# ---- C08 / C09 / C16: frame condition of the credit accounting -- who writes link-credit and delivery-count ------
+
+
+_CREDIT_WRITERS = [
+    # the single-step behaviour of each of these is decided by a C08 / C09 harness or obligation
+    r"^state::<impl at [^>]*>::on_incoming_flow$",  # sender and receiver: c08_sender_on_incoming_flow / c09_receiver_on_incoming_flow
+    r"^state::<impl at [^>]*>::consume$",  # receiver: c09_receiver_consume
+    r"^state::<impl at [^>]*>::try_consume$",  # sender: c08 try_consume
+    r"^consume_link_credit$",  # sender: c08_lost_wakeup
+    r"^state::<impl at [^>]*>::delivery_count_mut$",  # closure-based; its callers are listed below
+    r"^receiver::<impl at [^>]*>::refresh_credit_if_needed(::\{closure#\d+\})*$",  # c09 top-up
+    r"^receiver_link::<impl at [^>]*>::get_link_flow$",  # c09 flows report the state
+]
+_CREDIT_MUT_CALLERS = [r"^receiver_link::<impl at [^>]*>::on_incoming_attach(::\{closure#\d+\})*$", r"^verif_facade::"]
+
+
+def _credit_state_writers(env, prop):
+    o = Obligation(f"{prop.lower()}_the_credit_state_has_no_undecided_writer", prop)
+    o.desc = "frame condition of the credit accounting: every function of the crate (Drop impls and closures included, cleanup blocks too) that assigns link-credit or delivery-count of a LinkFlowStateInner, or calls the closure-based delivery_count_mut, is one of the step functions whose behaviour C08 / C09 decide -- so no destructor, guard or helper outside them can create, refund or lose credit (e.g. when a pending send or recv is dropped)"
+    i_dc, i_lc = env.fidx("LinkFlowStateInner", "delivery_count"), env.fidx("LinkFlowStateInner", "link_credit")
+    o.bounds = [f"all {len(env.fns)} MIR functions of fe2o3-amqp (features acceptor, transaction, scram); field assignments through any local whose type mentions LinkFlowStateInner"]
+    o.assumes = ["the flow state is only reachable through LinkFlowStateInner (no raw pointers; the crate forbids unsafe)"]
+    writers, callers = [], []
+    for name, fn in env.fns.items():
+        if name.startswith("verif_facade::"):
+            continue
+        locs = {l for l, t in fn.decls.items() if "LinkFlowStateInner" in t}
+        hit = False
+        for bb, (stmts, term) in fn.blocks.items():
+            for s in stmts:
+                m = re.match(r"\s*\(\(?\*?(_\d+)\)?\.(\d+): u32\) = ", s)
+                if m and m.group(1) in locs and int(m.group(2)) in (i_dc, i_lc):
+                    hit = True
+            if re.search(r"LinkFlowState::<.*>::delivery_count_mut::<|::delivery_count_mut::<", term or ""):
+                callers.append(name)
+        if hit:
+            writers.append(name)
+    o.functions = sorted(writers)
+
+    def replay(m):
+        cmds = ["scn cancel_send_no_credit", "scn cancel_send_credit"]
+        return cmds, (lambda outs: bool(outs[0].get("panic")) or outs[0]["transfers_without_credit"] > 0 or outs[0]["sends_completed"] > 0)
+
+    for w in sorted(set(writers)):
+        o.prove(f"writer:{_short_callee(w)}", [], z3.BoolVal(any(re.search(p, w) for p in _CREDIT_WRITERS)), replay=replay)
+    for c in sorted(set(callers)):
+        o.prove(f"caller-of-delivery_count_mut:{_short_callee(c)}", [], z3.BoolVal(any(re.search(p, c) for p in _CREDIT_MUT_CALLERS)), replay=replay)
+    o.cover("writers found", [z3.BoolVal(len(writers) >= 4)])
+    return o
+
+
+def c08_credit_writers(env):
+    return [_credit_state_writers(env, "C08")]
+
+
+def c16_credit_writers(env):
+    return [_credit_state_writers(env, "C16")]
+
+
+REGISTRY.setdefault("C08", []).append(c08_credit_writers)
+REGISTRY.setdefault("C16", []).append(c16_credit_writers)
